@@ -221,6 +221,19 @@ EXTRA11 = {
 }
 for _pid, _t in EXTRA11.items():
     EXTRA[_pid] = EXTRA.get(_pid, '') + ' ' + _t
+EXTRA12 = {
+ 'C01': 'Foci 64 KiB and more into the container; a struct embedded by value after a pointer-typed field.',
+ 'C02': 'The same far and nested foci: derivations succeed and stay in bounds.',
+ 'C03': 'Fields embedded through an alias, a generic instantiation and a predeclared type are known by their field names.',
+ 'C05': 'Request/response exchanges: a stage never sits on a result while its consumer waits.',
+ 'C09': 'Request/response exchanges through fork.Map and fork.Filter.',
+ 'C10': 'Hundreds of in-place folds in a row with up to 33 workers; races between Combine calls are attributed to the library.',
+ 'C12': 'Join of 65535 to 70001 inputs; struct{} inputs of capacities up to MaxInt.',
+ 'C17': 'monoid.From without a semigroup still has the given Empty.',
+ 'C19': 'Sequences of 2^20 (2^22) elements under a 32 MB stack limit.',
+}
+for _pid, _t in EXTRA12.items():
+    EXTRA[_pid] = EXTRA.get(_pid, '') + ' ' + _t
 for _pid, _t in EXTRA.items():
     TEXT[_pid]['text'] += ' ' + _t
 TEXT['C09']['note'] = 'Fail-fast (Lift) mode is exercised at scale only for closure, no-leak and "errors only for failing elements" (which workers fail first is not determined); the multiset verdict is for Pure and Try modes. Distinct output orders are counted per child process.'
@@ -230,6 +243,7 @@ TEXT['C16']['note'] += ' Nodes handed to callbacks are taken to be visitable AST
 TEXT['C04']['note'] += ' An optic value is taken to be usable from several goroutines at once on distinct structures (optics are stateless values).'
 TEXT['C15']['note'] += ' The stack limit of the long-sequence family extrapolates linearly: stack proportional to the skipped elements overflows the default 1 GB limit at a few 10^7 elements.'
 TEXT['C14']['note'] += ' The stack limit of the long-sequence family extrapolates linearly (see C15).'
+TEXT['C19']['note'] = TEXT['C19'].get('note', '') + ' The 32 MB stack limit of the long-sequence case extrapolates linearly: a frame per element overflows the default 1 GB limit at a few million elements more.'
 
 def main():
     checks, na = [], []
